@@ -26,6 +26,30 @@ type c18Case struct {
 	MagicName bool  `json:"magic_name"`  // the first member's name begins like another format's magic number
 	Corr    [][]int `json:"corruptions"` // [pos, val] pairs; empty + All=false: forward only
 	All     bool    `json:"all"`         // every position x every value
+	// MemberName: build the archive here (one regular member of that name) instead of Archive
+	MemberName string `json:"member_name,omitempty"`
+	Pinned     bool   `json:"pinned,omitempty"` // a pinned known-finding case: never excluded
+}
+
+// c18BuildOne writes an archive with one regular member.
+func c18BuildOne(name, format string) []byte {
+	h := &atar.Header{Name: name, Mode: 0o644, Typeflag: atar.TypeReg, ModTime: time.Unix(1700000000, 0), Size: 12}
+	switch format {
+	case "ustar":
+		h.Format = atar.FormatUSTAR
+	case "pax":
+		h.Format = atar.FormatPAX
+	case "gnu":
+		h.Format = atar.FormatGNU
+	}
+	var buf bytes.Buffer
+	w := atar.NewWriter(&buf)
+	if err := w.WriteHeader(h); err != nil {
+		return nil
+	}
+	w.Write([]byte("member data\n"))
+	w.Close()
+	return buf.Bytes()
 }
 
 func c18IsTar(m *MIME) bool { return m.String() == "application/x-tar" }
@@ -34,8 +58,17 @@ func c18Check(c c18Case) vfResult {
 	var r vfResult
 	r.LabelN = map[string]int64{}
 	a := []byte(c.Archive)
+	if c.MemberName != "" {
+		a = c18BuildOne(c.MemberName, c.Format)
+	}
 	if len(a) < 512 {
 		return vfFailf("generator bug: archive shorter than one block (%d)", len(a))
+	}
+	// known finding F10 (see known_findings.json): a first member whose name ends in /gpkg-1 is
+	// deliberately not reported as tar. Excluded by construction, counted; the pinned case itself
+	// is evaluated and reported as KNOWN-FINDING.
+	if !c.Pinned && bytes.Contains(a[:100], []byte("/gpkg-1\x00")) {
+		return vfResult{Skip: "known-finding-F10:first-member-name-ends-in-/gpkg-1"}
 	}
 	for _, lim := range []uint32{defaultLimit, 0, 512} {
 		m := vfDetectAt(a, lim)
@@ -120,6 +153,14 @@ func c18GenArchive(t *rapid.T) ([]byte, string) {
 		if rapid.IntRange(0, 3).Draw(t, "magicbody") == 0 {
 			// member CONTENT that looks like another format; only the header block decides
 			body = []byte(rapid.SampledFrom([]string{"%PDF-1.4\n%\xe2\xe3\xcf\xd3\n1 0 obj", "PK\x03\x04\x14\x00", "GIF89a\x01\x00", "\x89PNG\r\n\x1a\n", "MZ\x90\x00", "\x7fELF\x02\x01\x01", "%!PS-Adobe-3.0", "<?xml version=\"1.0\"?><svg/>", "{\"a\":1}", "8BPS\x00\x01", "OggS\x00\x02", "/* XPM */", "7z\xbc\xaf\x27\x1c"}).Draw(t, "mb"))
+		} else if rapid.IntRange(0, 3).Draw(t, "dictbody") == 0 {
+			// member content that mentions literals of the code under test (paths, markers, magic)
+			body = nil
+			for j, k := 0, rapid.IntRange(1, 4).Draw(t, "ndict"); j < k; j++ {
+				body = append(body, rapid.SampledFrom([]string{"", "pkg-1.0", "./", "usr/share/doc", "\n"}).Draw(t, "dlead")...)
+				body = append(body, vfDictTok(t)...)
+				body = append(body, rapid.SampledFrom([]string{"\n", "\x00", " ", ""}).Draw(t, "dsep")...)
+			}
 		}
 		h := &atar.Header{
 			Name:    name,
@@ -145,6 +186,19 @@ func c18GenArchive(t *rapid.T) ([]byte, string) {
 			h.Typeflag, h.Size, body = atar.TypeFifo, 0, nil
 		default:
 			h.Typeflag = atar.TypeReg
+		}
+		if rapid.IntRange(0, 9).Draw(t, "highbytes") == 0 {
+			// legacy 8-bit names (GNU format stores them as they are): every string field full
+			// of bytes >= 0x80, so that the header checksum exceeds 16 bits
+			hb := func(n int, label string) string {
+				return strings.Repeat(rapid.SampledFrom([]string{"\xff", "\xfe", "\xd1\x8f", "\xe9", "\xf0\x9f\x98\x80"}).Draw(t, label), n)[:n]
+			}
+			h.Name = hb(rapid.SampledFrom([]int{60, 99, 100}).Draw(t, "hn"), "hname")
+			h.Uname, h.Gname = hb(31, "huname"), hb(31, "hgname")
+			if rapid.Bool().Draw(t, "hlink") {
+				h.Typeflag, h.Linkname, h.Size, body = atar.TypeSymlink, hb(rapid.SampledFrom([]int{50, 100}).Draw(t, "hl"), "hlname"), 0, nil
+			}
+			format = "gnu"
 		}
 		switch format {
 		case "ustar":
@@ -231,6 +285,67 @@ func TestVerif_C18(t *testing.T) {
 	}
 	if vfOnlySub("gen") {
 		vfRun(t, vfSub[c18Case]{Prop: "C18", Name: "gen", Checks: vfN(8000, 2400000), Gen: c18Gen, Check: c18Check, Sample: sample})
+	}
+	if t.Failed() {
+		return
+	}
+	if vfOnlySub("dict") && !vfReplayMode() {
+		// every literal of the code under test, placed where member data, member names and
+		// link names go: what an archive CONTAINS never makes it something else than a tar
+		sh, nsh := vfShard(), vfNShards()
+		idx, built := 0, 0
+		for _, tok := range vfDictLits {
+			for place := 0; place < 5; place++ {
+				for fi, format := range []atar.Format{atar.FormatUSTAR, atar.FormatPAX, atar.FormatGNU} {
+					idx++
+					if idx%nsh != sh {
+						continue
+					}
+					h := &atar.Header{Name: "pkg-1.0/data.bin", Mode: 0o644, Typeflag: atar.TypeReg, ModTime: time.Unix(1700000000, 0), Format: format}
+					body := []byte("member data\n")
+					clean := strings.Map(func(r rune) rune {
+						if r == 0 || r > 0x7e {
+							return -1
+						}
+						return r
+					}, tok)
+					switch place {
+					case 0:
+						body = append([]byte(tok), body...)
+					case 1:
+						body = append(append([]byte("pkg-1.0"), tok...), "\nmore\n"...)
+					case 2:
+						body = append(bytes.Repeat([]byte("x"), 300), tok...)
+					case 3:
+						h.Name = "dir/sub" + clean
+					default:
+						h.Typeflag, h.Linkname, body = atar.TypeSymlink, "target"+clean, nil
+					}
+					if c18MagicName([]byte(h.Name)) || len(h.Name) == 0 || strings.HasSuffix(h.Name, "/") {
+						continue
+					}
+					h.Size = int64(len(body))
+					var buf bytes.Buffer
+					w := atar.NewWriter(&buf)
+					if err := w.WriteHeader(h); err != nil {
+						continue
+					}
+					w.Write(body)
+					w.Close()
+					built++
+					c := c18Case{Archive: buf.Bytes(), Format: []string{"ustar", "pax", "gnu"}[fi]}
+					r := c18Check(c)
+					r.Nontrivial = true
+					r.Labels = append(r.Labels, "dict", fmt.Sprint("dict-place-", place))
+					vfStats.record(r, func() any { return map[string]any{"sub": "dict", "literal": vfQ([]byte(tok)), "place": place, "format": c.Format} })
+					if r.Err != nil {
+						vfEnumFail(t, "C18", "gen", c, r.Err)
+						return
+					}
+				}
+			}
+		}
+		vfStats.Subchecks["dict"] = fmt.Sprintf("%d source literals x 5 placements (data start, data after a path, data at offset 300, member name, link name) x 3 formats; this shard built %d archives", len(vfDictLits), built)
 	}
 	if t.Failed() {
 		return
